@@ -1,6 +1,7 @@
 import GcArena.Proofs.Quiet
 import GcArena.Proofs.Exact
 import GcArena.Proofs.RunBridge
+import GcArena.Proofs.ProtRun
 /-!
 # C07 — Finalization: dead means unreachable, resurrection holds for the cycle
 
@@ -183,6 +184,43 @@ theorem resurrect_protects_closure (a : Arena) (t : Nat) (ms : List Micro) (c : 
   intro j hj
   exact safe_closure (micros_inv ms h0 hs) (resurrect_protects a t ms c hinv hcb hp hmk hs hsw hno) hj
 
+/-- **Resurrection protects for the cycle, over every history** (proved).  From a mark-phase
+    state in which `t` is gray or black — in particular right after `GcWeak::resurrect` — run
+    *any* sequence of API operations: further callbacks of every kind (`mutate`, `mutate_root`,
+    `finalize`) with any allocations, stores, barriers, upgrades and resurrections, and collection
+    calls of every method, self-driven or oracle-driven, with a `trace` unwinding anywhere.  As long
+    as the arena exists and the cycle has not been completed (the step log has gained no `'Z'`, the
+    `Sweep → Sleep` switch), `t` is allocated, undestructed and out of the running sweep's reach,
+    and the collector has logged no event about it. -/
+theorem resurrect_protects_run (a : Arena) (t : Nat) (ops : List Op) (hinv : Inv a)
+    (hp : a.ctx.phase = .mark)
+    (hmk : ∃ o, a.ctx.heap.get t = some o ∧ (o.color = .gray ∨ o.color = .black))
+    (halive : (a.run ops).alive = true)
+    (hcycle : ∃ new, (a.run ops).ctx.steps = new ++ a.ctx.steps ∧ 'Z' ∉ new) :
+    Safe (a.run ops).ctx t ∧ (∃ o, (a.run ops).ctx.heap.get t = some o ∧ o.live = true) ∧
+    ∃ evs, (a.run ops).ctx.log = evs ++ a.ctx.log ∧ Event.dropped t ∉ evs ∧ Event.freed t ∉ evs := by
+  obtain ⟨new, hnew, hz⟩ := hcycle
+  obtain ⟨⟨_, k⟩, hfin⟩ := run_protRel t ops a hinv halive
+  obtain ⟨p, evs, hl, hav⟩ := k (zc_eq_of_suffix hnew hz) (Or.inl ⟨hp, hmk⟩)
+  have hs : Safe (a.run ops).ctx t := p.safe hfin.cinv
+  obtain ⟨o, ho, hlive, _⟩ := hs
+  exact ⟨⟨o, ho, hlive, ‹_›⟩, ⟨o, ho, hlive⟩, evs, hl,
+    fun hm => hav _ hm rfl, fun hm => hav _ hm rfl⟩
+
+/-- …and so is everything strongly reachable from `t` in the state reached (the closure). -/
+theorem resurrect_protects_run_closure (a : Arena) (t : Nat) (ops : List Op) (hinv : Inv a)
+    (hp : a.ctx.phase = .mark)
+    (hmk : ∃ o, a.ctx.heap.get t = some o ∧ (o.color = .gray ∨ o.color = .black))
+    (halive : (a.run ops).alive = true)
+    (hcycle : ∃ new, (a.run ops).ctx.steps = new ++ a.ctx.steps ∧ 'Z' ∉ new) :
+    ∀ j, AccessibleC (a.run ops).ctx [] [Ptr.strong t] j →
+      Safe (a.run ops).ctx j ∧ ∃ o, (a.run ops).ctx.heap.get j = some o ∧ o.live = true := by
+  intro j hj
+  have hfin := (run_protRel t ops a hinv halive).2
+  have hs := safe_closure hfin.cinv (resurrect_protects_run a t ops hinv hp hmk halive hcycle).1 hj
+  obtain ⟨o, ho, hl, _⟩ := hs
+  exact ⟨⟨o, ho, hl, ‹_›⟩, o, ho, hl⟩
+
 /-! ### Non-vacuity -/
 
 /-- root → 0; object 1 unreachable but weakly held by 0.  Fully marked: `is_dead(1)`; resurrect it:
@@ -274,5 +312,40 @@ example : ¬ StrongReachC sweepingCtx resurrected.root 1 := by
       simp at hs
   intro hr
   cases reach 1 hr
+
+/-! ### Non-vacuity of `marked_exact_run` and `resurrect_protects_run` -/
+
+example : (sleeping.step (.collect .finishMarking .finalize none none)).2 = "some" :=
+  (marked_exact_run 2 (demo.take 7) (by decide) (by decide) (by decide)).1
+
+/-- `demo` ends inside the finalizer callback, right after `resurrect(weak 1)`: object 1 is gray. -/
+def afterRes : Arena := (Arena.new 2).run demo
+
+/-- What follows the resurrection: the finalizer callback returns without storing the pointer; a
+    `mutate` callback allocates, *removes* the only (weak) pointer to object 1 and stores the new
+    object instead; `finish_marking` (self-driven) completes the marking and the client starts the
+    sweep; two sweep steps pass the new object and object 1. -/
+def laterOps : List Op := [
+  .leave, .enter .mutate, .alloc true [none], .readRoot 0, .store .write 0 0 none,
+  .store .write 0 0 (some (.strong 2)), .leave,
+  .collect .finishMarking .sweep none none,
+  .collect .collectDebt .drop none (some [.sweepStep, .sweepStep]) ]
+
+/-- All hypotheses of `resurrect_protects_run` hold for this history (the cycle is not completed:
+    the new step-log entries are `g g g b b S x x`, oldest first), so object 1 — named by no pointer
+    anywhere any more — has been passed by the sweep and kept, undestructed. -/
+example : Safe (afterRes.run laterOps).ctx 1 ∧
+    (∃ o, (afterRes.run laterOps).ctx.heap.get 1 = some o ∧ o.live = true) ∧
+    ∃ evs, (afterRes.run laterOps).ctx.log = evs ++ afterRes.ctx.log ∧
+      Event.dropped 1 ∉ evs ∧ Event.freed 1 ∉ evs := by
+  have hinv : Inv afterRes := by
+    unfold afterRes
+    exact inv_run 2 _ (by decide)
+  have hgray : afterRes.ctx.heap.get 1 = some ⟨.gray, true, true, [none]⟩ := by decide
+  exact resurrect_protects_run afterRes 1 laterOps hinv (by decide) ⟨_, hgray, Or.inl rfl⟩ (by decide)
+    ⟨['x', 'x', 'S', 'b', 'b', 'g', 'g', 'g'], by decide, by decide⟩
+
+example : (afterRes.run laterOps).ctx.phase = .sweep ∧ (afterRes.run laterOps).ctx.pre = [2, 1] ∧
+    (afterRes.run laterOps).ctx.rest = [0] := by decide
 
 end GcArena.C07
